@@ -151,6 +151,34 @@ pub(crate) fn native_stack_position() -> usize {
     core::hint::black_box(&marker) as *const u8 as usize
 }
 
+/// A bound on native stack use for recursive built-ins (`JSON.stringify`, `flat`, ...): the
+/// position where the recursion may start and the bytes it may use from there.
+#[derive(Clone, Copy, Debug)]
+pub struct NativeStackLimit {
+    base: usize,
+    budget: usize,
+}
+
+impl NativeStackLimit {
+    /// A limit of `budget` bytes measured from the caller's stack position.
+    #[inline(always)]
+    pub fn here(budget: usize) -> Self {
+        NativeStackLimit {
+            base: native_stack_position(),
+            budget,
+        }
+    }
+
+    /// Err(RangeError) once the current stack position is further than the budget from the base.
+    #[inline]
+    pub fn check(&self) -> Result<(), JsError> {
+        if self.base.abs_diff(native_stack_position()) > self.budget {
+            return Err(JsError::range_error("Maximum call stack size exceeded"));
+        }
+        Ok(())
+    }
+}
+
 /// The interpreter state
 pub struct Interpreter {
     // ═══════════════════════════════════════════════════════════════════════════
@@ -781,6 +809,21 @@ impl Interpreter {
             return Err(JsError::range_error("Maximum call stack size exceeded"));
         }
         Ok(())
+    }
+
+    /// The native stack limit a recursive built-in has to respect: measured from where the host
+    /// entered the interpreter when script code is already running on the native stack, from
+    /// the caller's position otherwise.
+    #[inline(always)]
+    pub(crate) fn native_stack_limit(&self) -> NativeStackLimit {
+        if self.native_depth == 0 {
+            NativeStackLimit::here(self.native_stack_budget)
+        } else {
+            NativeStackLimit {
+                base: self.native_stack_base,
+                budget: self.native_stack_budget,
+            }
+        }
     }
 
     /// Enter a native activation that runs script code on the native stack.
